@@ -11,12 +11,27 @@ From GPA Require Import Sched SignRace SignRaceProofs.
 Notation run := (@Sched.run world amsg areply loc handle).
 
 (* ---- the call sites as they are in /repo now (the main model, [route_reads]) -------------- *)
-(* They are the two-accessor programs: the secret and the id come from two actor round trips. *)
-Theorem C10_current_code_is_two_read : forall r, route_reads r = two_read_route r.
+(* After the repair of finding F5 every signing call site takes the id and the secret from ONE
+   actor reply (get_current_key_guid_and_value). *)
+Theorem C10_current_code_is_single_read : forall r, route_reads r = single_read_route r.
 Proof. reflexivity. Qed.
-Print Assumptions C10_current_code_is_two_read.
+Print Assumptions C10_current_code_is_single_read.
 
-(* ---- finding F5: with the two-accessor call sites the full statement is FALSE ------------- *)
+(* THE FULL STATEMENT for the code as it is: for every schedule, every behaviour of the key keeper
+   (and of any other task), any number of concurrent signers, every initial content of the slot
+   and every MAC function: every authorization header emitted by any signing call site pairs the
+   id of a key that was set (initially or by a processed SetKey) with the MAC under that key. *)
+Theorem C10_pairing :
+  forall (M : Type) (mac : bytes -> bytes -> M) k0 ps t r sched l input g m,
+  nth_error ps t = Some (signer0 (route_reads r)) ->
+  result_of (run (init (w_init k0) ps) sched) t = Some l ->
+  header mac input l = Some (g, m) ->
+  exists k, In (Some k) (k0 :: set_args (trace (run (init (w_init k0) ps) sched))) /\
+            guid k = g /\ m = mac (value k) input.
+Proof. exact (route_pairing_if_single route_reads single_read_route_ok). Qed.
+Print Assumptions C10_pairing.
+
+(* ---- finding F5 (repaired): with the former two-accessor call sites the statement was FALSE ------------- *)
 (* The full statement fails for the two-accessor call sites: there are a MAC function, a keeper
    behaviour and a schedule in which a signer emits a header whose id and MAC belong to no single
    key that was ever set. *)
